@@ -149,6 +149,24 @@ def run(repo, chk):
     rets = returns_of(call.node)
     chk.ob("R15.1", "selector.InternedMC.__call__:returns-cached", len(rets) == 1 and "_cache[key]" in norm(rets[0].value), call.where,
            "the cached object is what is returned (structural equality => identity)")
+    # the intern table only grows: an entry once made is what every later structurally equal construction returns
+    from .shared import MUTATING_METHODS
+    shrinks = []
+    for q_, f2 in sorted(repo.functions.items()):
+        if not q_.startswith("selector."):
+            continue
+        for n in walk_local(f2.node):
+            if isinstance(n, ast.Call) and isinstance(n.func, ast.Attribute) and isinstance(n.func.value, ast.Attribute) and n.func.value.attr == "_cache" \
+                    and n.func.attr in ("clear", "pop", "popitem", "update", "setdefault", "__delitem__", "__setitem__"):
+                shrinks.append(f"{q_}: {norm(n)[:50]}")
+            elif isinstance(n, ast.Delete) and any("_cache" in norm(t) for t in n.targets):
+                shrinks.append(f"{q_}: {norm(n)[:50]}")
+            elif isinstance(n, ast.Assign) and any(isinstance(t, ast.Attribute) and t.attr == "_cache" for t in n.targets):
+                shrinks.append(f"{q_}: {norm(n)[:50]}")
+    stores = [n for n in walk_local(call.node) if isinstance(n, ast.Assign) and any(isinstance(t, ast.Subscript) and norm(t.value).endswith("._cache") for t in n.targets)]
+    chk.ob("R15.1", "selector.InternedMC:intern-table-only-grows", not shrinks and len(stores) == 1 and conds(stores[0], call.node) == ["key not in cls._cache"], "ptera/selector.py",
+           "the per-class intern table is written in one place only (a new entry on a miss) and never cleared, popped, replaced or deleted from: two structurally equal "
+           "constructions are the same object however much is compiled in between" + (f" -- but {shrinks}" if shrinks else ""))
     new = repo.func("selector.InternedMC.__new__")
     chk.ob("R15.1", "selector.InternedMC.__new__:per-class-cache", any(isinstance(n, ast.Assign) and norm(n.targets[0]) == "dct['_cache']"
            and isinstance(n.value, ast.Dict) for n in walk_local(new.node)), new.where, "each interned class gets its own empty cache")
